@@ -136,6 +136,25 @@ func checkC13(c c13Case, o *Obs) error {
 			return fmt.Errorf("--aggregate (threshold %v) lists %s (%s) but per-sequence count is %d of %d\nper-sequence:\n%s", th, m, got[m], counts[m], n, trunc(perSeq, 800))
 		}
 	}
+	if c.Kind != "snps" && c.Var.CLI && gofastaBin() != "" {
+		dir, cleanup := caseDir("c13cli")
+		defer cleanup()
+		if err := cliAgree(o, "variants --aggregate", agg, c.Var.cliArgs(dir, varRunOpts{Start: -1, End: -1, AppendSNP: c.AppendSNP, Aggregate: true, Threshold: th})...); err != nil {
+			return err
+		}
+	}
+	if c.Kind == "snps" && c.Snps.CLI && gofastaBin() != "" {
+		dir, cleanup := caseDir("c13cli")
+		defer cleanup()
+		s := c.Snps
+		args := []string{"snps", "-r", writeFile(dir, "ref.fa", renderFasta([]FaRec{s.Ref}, s.RefLay)), "-q", writeFile(dir, "aln.fa", renderFasta(s.Recs, s.AlnLay)), "--aggregate", "--threshold", strconv.FormatFloat(th, 'g', -1, 64)}
+		if s.HardGaps {
+			args = append(args, "--hard-gaps")
+		}
+		if err := cliAgree(o, "snps --aggregate", agg, args...); err != nil {
+			return err
+		}
+	}
 	// ordered by genomic position
 	cur := -1 << 30
 	for _, m := range order {
